@@ -280,7 +280,11 @@ def tagsOf (out : Outcome) (inp : Input) : List String :=
   (if out.reqs.any (·.any C08.isPostT) then ["post"] else []) ++
   (if C04.sizesOK inp then [] else ["negativeSize"]) ++
   (if C05.swrOK swrFloat inp.opt then [] else ["swrRoundsDown"]) ++
-  (if C05.nodupKeys inp then [] else ["duplicateKeys"])
+  (if C05.nodupKeys inp then [] else ["duplicateKeys"]) ++
+  (if C04.rtsOK inp then [] else ["negativeLoad"]) ++
+  (if inp.probes.all inSync && C04.onlyTooBigUnscraped inp && C04.overloadOnlyByBig inp &&
+      inp.probes.zipIdx.any (fun (p, i) => C04.holdsBig inp i p (C04.bigProc inp.opt) || C04.holdsBig inp i p (C04.bigHead inp.opt))
+   then ["assignedTooBig"] else [])
 
 def judge (inp : Input) (ob : Obs) : Verdict :=
   let scheds := candidatesScheds swrFloat inp
